@@ -148,6 +148,12 @@ def get_all_rules(rules_path=None, match_mode='first_match'):
     """
     global _cached_engine, _cached_engine_path
 
+    # Forget the engine of any previously loaded .rules file: normalize_merchant()
+    # prefers the cached engine over the rules it is given, so a stale one would
+    # keep classifying with the old file after a CSV (or nothing) is loaded.
+    _cached_engine = None
+    _cached_engine_path = None
+
     user_rules_with_source = []
     if rules_path:
         # Check if it's the new .rules format
